@@ -1,0 +1,436 @@
+//! Verification hooks (only compiled with the `verif` cargo feature).
+//!
+//! Drop-in replacements for the shared-memory primitives the crate uses
+//! (`AtomicU64`, `AtomicUsize`, `DashMap`, `SegQueue`).  Every operation first
+//! reports a [`Step`] to a per-thread hook and then delegates to the real
+//! primitive, so an external deterministic scheduler can decide, step by step,
+//! which thread runs next, count steps, or inspect the world between two steps.
+//!
+//! With the feature off this module does not exist and the crate uses the real
+//! primitives directly.
+
+use std::cell::{Cell, RefCell};
+use std::fmt;
+use std::hash::Hash;
+use std::ops::Deref;
+use std::panic::Location;
+use std::rc::Rc;
+
+pub use std::sync::atomic::Ordering;
+
+/// The kind of shared-memory operation about to be performed.
+#[derive(Debug, Clone, Copy, PartialEq, Eq, Hash)]
+pub enum StepKind {
+    /// atomic load
+    AtomicLoad,
+    /// atomic store
+    AtomicStore,
+    /// atomic read-modify-write
+    AtomicRmw,
+    /// map insert
+    MapInsert,
+    /// map remove
+    MapRemove,
+    /// map lookup
+    MapGet,
+    /// map iteration (reported once, treated as one atomic read)
+    MapIter,
+    /// map len / is_empty
+    MapLen,
+    /// queue push
+    QueuePush,
+    /// queue pop
+    QueuePop,
+    /// queue len / is_empty
+    QueueLen,
+}
+
+/// One shared-memory operation, reported *before* it is performed.
+#[derive(Debug, Clone, Copy)]
+pub struct Step {
+    /// What is about to happen.
+    pub kind: StepKind,
+    /// Address of the primitive operated on (stable while it is alive).
+    pub object: usize,
+    /// Source location of the operation inside the crate.
+    pub site: &'static Location<'static>,
+}
+
+type Hook = Rc<dyn Fn(&Step)>;
+
+thread_local! {
+    static HOOK: RefCell<Option<Hook>> = const { RefCell::new(None) };
+    static ACTIVE: Cell<bool> = const { Cell::new(false) };
+    static MUTED: Cell<u32> = const { Cell::new(0) };
+}
+
+/// Install (or clear) the step hook of the calling thread.
+pub fn set_thread_hook(hook: Option<Hook>) {
+    ACTIVE.with(|a| a.set(hook.is_some()));
+    HOOK.with(|h| *h.borrow_mut() = hook);
+}
+
+/// Run `f` on this thread without reporting its steps.
+pub fn unobserved<R>(f: impl FnOnce() -> R) -> R {
+    struct Guard;
+    impl Drop for Guard {
+        fn drop(&mut self) {
+            MUTED.with(|m| m.set(m.get() - 1));
+        }
+    }
+    MUTED.with(|m| m.set(m.get() + 1));
+    let _g = Guard;
+    f()
+}
+
+#[inline]
+fn step(kind: StepKind, object: usize, site: &'static Location<'static>) {
+    if !ACTIVE.with(|a| a.get()) || MUTED.with(|m| m.get()) > 0 {
+        return;
+    }
+    let hook = HOOK.with(|h| h.borrow().clone());
+    if let Some(hook) = hook {
+        hook(&Step { kind, object, site });
+    }
+}
+
+macro_rules! atomic_wrapper {
+    ($name:ident, $inner:ty, $prim:ty) => {
+        /// Instrumented drop-in for the std atomic of the same name.
+        #[derive(Default)]
+        pub struct $name($inner);
+
+        impl $name {
+            /// See std.
+            pub const fn new(v: $prim) -> Self {
+                Self(<$inner>::new(v))
+            }
+            #[inline]
+            fn addr(&self) -> usize {
+                self as *const Self as usize
+            }
+            /// See std.
+            #[track_caller]
+            pub fn load(&self, o: Ordering) -> $prim {
+                step(StepKind::AtomicLoad, self.addr(), Location::caller());
+                self.0.load(o)
+            }
+            /// See std.
+            #[track_caller]
+            pub fn store(&self, v: $prim, o: Ordering) {
+                step(StepKind::AtomicStore, self.addr(), Location::caller());
+                self.0.store(v, o)
+            }
+            /// See std.
+            #[track_caller]
+            pub fn swap(&self, v: $prim, o: Ordering) -> $prim {
+                step(StepKind::AtomicRmw, self.addr(), Location::caller());
+                self.0.swap(v, o)
+            }
+            /// See std.
+            #[track_caller]
+            pub fn fetch_add(&self, v: $prim, o: Ordering) -> $prim {
+                step(StepKind::AtomicRmw, self.addr(), Location::caller());
+                self.0.fetch_add(v, o)
+            }
+            /// See std.
+            #[track_caller]
+            pub fn fetch_sub(&self, v: $prim, o: Ordering) -> $prim {
+                step(StepKind::AtomicRmw, self.addr(), Location::caller());
+                self.0.fetch_sub(v, o)
+            }
+            /// See std.
+            #[track_caller]
+            pub fn fetch_max(&self, v: $prim, o: Ordering) -> $prim {
+                step(StepKind::AtomicRmw, self.addr(), Location::caller());
+                self.0.fetch_max(v, o)
+            }
+            /// See std.
+            #[track_caller]
+            pub fn fetch_min(&self, v: $prim, o: Ordering) -> $prim {
+                step(StepKind::AtomicRmw, self.addr(), Location::caller());
+                self.0.fetch_min(v, o)
+            }
+            /// See std.
+            #[track_caller]
+            pub fn fetch_and(&self, v: $prim, o: Ordering) -> $prim {
+                step(StepKind::AtomicRmw, self.addr(), Location::caller());
+                self.0.fetch_and(v, o)
+            }
+            /// See std.
+            #[track_caller]
+            pub fn fetch_or(&self, v: $prim, o: Ordering) -> $prim {
+                step(StepKind::AtomicRmw, self.addr(), Location::caller());
+                self.0.fetch_or(v, o)
+            }
+            /// See std.
+            #[track_caller]
+            pub fn fetch_xor(&self, v: $prim, o: Ordering) -> $prim {
+                step(StepKind::AtomicRmw, self.addr(), Location::caller());
+                self.0.fetch_xor(v, o)
+            }
+            /// See std.
+            #[track_caller]
+            pub fn compare_exchange(
+                &self,
+                current: $prim,
+                new: $prim,
+                success: Ordering,
+                failure: Ordering,
+            ) -> Result<$prim, $prim> {
+                step(StepKind::AtomicRmw, self.addr(), Location::caller());
+                self.0.compare_exchange(current, new, success, failure)
+            }
+            /// See std (never fails spuriously here: delegates to the strong version).
+            #[track_caller]
+            pub fn compare_exchange_weak(
+                &self,
+                current: $prim,
+                new: $prim,
+                success: Ordering,
+                failure: Ordering,
+            ) -> Result<$prim, $prim> {
+                step(StepKind::AtomicRmw, self.addr(), Location::caller());
+                self.0.compare_exchange(current, new, success, failure)
+            }
+            /// See std (one atomic step).
+            #[track_caller]
+            pub fn fetch_update<F>(
+                &self,
+                set_order: Ordering,
+                fetch_order: Ordering,
+                f: F,
+            ) -> Result<$prim, $prim>
+            where
+                F: FnMut($prim) -> Option<$prim>,
+            {
+                step(StepKind::AtomicRmw, self.addr(), Location::caller());
+                self.0.fetch_update(set_order, fetch_order, f)
+            }
+            /// See std.
+            pub fn into_inner(self) -> $prim {
+                self.0.into_inner()
+            }
+            /// See std.
+            pub fn get_mut(&mut self) -> &mut $prim {
+                self.0.get_mut()
+            }
+        }
+
+        impl fmt::Debug for $name {
+            fn fmt(&self, f: &mut fmt::Formatter<'_>) -> fmt::Result {
+                fmt::Debug::fmt(&self.0, f)
+            }
+        }
+
+        impl From<$prim> for $name {
+            fn from(v: $prim) -> Self {
+                Self::new(v)
+            }
+        }
+
+        impl serde::Serialize for $name {
+            fn serialize<S: serde::Serializer>(&self, s: S) -> Result<S::Ok, S::Error> {
+                self.0.serialize(s)
+            }
+        }
+
+        impl<'de> serde::Deserialize<'de> for $name {
+            fn deserialize<D: serde::Deserializer<'de>>(d: D) -> Result<Self, D::Error> {
+                <$inner as serde::Deserialize>::deserialize(d).map(Self)
+            }
+        }
+    };
+}
+
+atomic_wrapper!(AtomicU64, std::sync::atomic::AtomicU64, u64);
+atomic_wrapper!(AtomicUsize, std::sync::atomic::AtomicUsize, usize);
+
+/// Owned copy of one map entry (no shard lock is held, so a thread paused by
+/// the hook can never block another one).
+#[derive(Debug, Clone)]
+pub struct Entry<K, V> {
+    key: K,
+    value: V,
+}
+
+impl<K, V> Entry<K, V> {
+    /// The entry's key.
+    pub fn key(&self) -> &K {
+        &self.key
+    }
+    /// The entry's value.
+    pub fn value(&self) -> &V {
+        &self.value
+    }
+    /// Key and value.
+    pub fn pair(&self) -> (&K, &V) {
+        (&self.key, &self.value)
+    }
+}
+
+impl<K, V> Deref for Entry<K, V> {
+    type Target = V;
+    fn deref(&self) -> &V {
+        &self.value
+    }
+}
+
+/// Instrumented drop-in for `dashmap::DashMap` (the operations the crate uses;
+/// anything else falls through to the real map via `Deref`, unreported).
+pub struct DashMap<K, V>(dashmap::DashMap<K, V>);
+
+impl<K: Eq + Hash + Clone, V: Clone> DashMap<K, V> {
+    /// See dashmap.
+    pub fn new() -> Self {
+        Self(dashmap::DashMap::new())
+    }
+    /// See dashmap.
+    pub fn with_capacity(n: usize) -> Self {
+        Self(dashmap::DashMap::with_capacity(n))
+    }
+    #[inline]
+    fn addr(&self) -> usize {
+        self as *const Self as usize
+    }
+    /// See dashmap.
+    #[track_caller]
+    pub fn insert(&self, k: K, v: V) -> Option<V> {
+        step(StepKind::MapInsert, self.addr(), Location::caller());
+        self.0.insert(k, v)
+    }
+    /// See dashmap.
+    #[track_caller]
+    pub fn remove(&self, k: &K) -> Option<(K, V)> {
+        step(StepKind::MapRemove, self.addr(), Location::caller());
+        self.0.remove(k)
+    }
+    /// See dashmap.
+    #[track_caller]
+    pub fn remove_if(&self, k: &K, f: impl FnOnce(&K, &V) -> bool) -> Option<(K, V)> {
+        step(StepKind::MapRemove, self.addr(), Location::caller());
+        self.0.remove_if(k, f)
+    }
+    /// See dashmap; returns an owned copy of the entry.
+    #[track_caller]
+    pub fn get(&self, k: &K) -> Option<Entry<K, V>> {
+        step(StepKind::MapGet, self.addr(), Location::caller());
+        self.0.get(k).map(|r| Entry {
+            key: r.key().clone(),
+            value: r.value().clone(),
+        })
+    }
+    /// See dashmap.
+    #[track_caller]
+    pub fn contains_key(&self, k: &K) -> bool {
+        step(StepKind::MapGet, self.addr(), Location::caller());
+        self.0.contains_key(k)
+    }
+    /// See dashmap; the whole iteration is one step over owned copies.
+    #[track_caller]
+    pub fn iter(&self) -> std::vec::IntoIter<Entry<K, V>> {
+        step(StepKind::MapIter, self.addr(), Location::caller());
+        self.0
+            .iter()
+            .map(|r| Entry {
+                key: r.key().clone(),
+                value: r.value().clone(),
+            })
+            .collect::<Vec<_>>()
+            .into_iter()
+    }
+    /// See dashmap.
+    #[track_caller]
+    pub fn len(&self) -> usize {
+        step(StepKind::MapLen, self.addr(), Location::caller());
+        self.0.len()
+    }
+    /// See dashmap.
+    #[track_caller]
+    pub fn is_empty(&self) -> bool {
+        step(StepKind::MapLen, self.addr(), Location::caller());
+        self.0.is_empty()
+    }
+    /// See dashmap.
+    #[track_caller]
+    pub fn clear(&self) {
+        step(StepKind::MapRemove, self.addr(), Location::caller());
+        self.0.clear()
+    }
+}
+
+impl<K: Eq + Hash + Clone, V: Clone> Default for DashMap<K, V> {
+    fn default() -> Self {
+        Self::new()
+    }
+}
+
+impl<K: Eq + Hash + fmt::Debug, V: fmt::Debug> fmt::Debug for DashMap<K, V> {
+    fn fmt(&self, f: &mut fmt::Formatter<'_>) -> fmt::Result {
+        fmt::Debug::fmt(&self.0, f)
+    }
+}
+
+impl<K, V> Deref for DashMap<K, V> {
+    type Target = dashmap::DashMap<K, V>;
+    fn deref(&self) -> &Self::Target {
+        &self.0
+    }
+}
+
+/// Instrumented drop-in for `crossbeam::queue::SegQueue`.
+pub struct SegQueue<T>(crossbeam::queue::SegQueue<T>);
+
+impl<T> SegQueue<T> {
+    /// See crossbeam.
+    pub const fn new() -> Self {
+        Self(crossbeam::queue::SegQueue::new())
+    }
+    #[inline]
+    fn addr(&self) -> usize {
+        self as *const Self as usize
+    }
+    /// See crossbeam.
+    #[track_caller]
+    pub fn push(&self, v: T) {
+        step(StepKind::QueuePush, self.addr(), Location::caller());
+        self.0.push(v)
+    }
+    /// See crossbeam.
+    #[track_caller]
+    pub fn pop(&self) -> Option<T> {
+        step(StepKind::QueuePop, self.addr(), Location::caller());
+        self.0.pop()
+    }
+    /// See crossbeam.
+    #[track_caller]
+    pub fn len(&self) -> usize {
+        step(StepKind::QueueLen, self.addr(), Location::caller());
+        self.0.len()
+    }
+    /// See crossbeam.
+    #[track_caller]
+    pub fn is_empty(&self) -> bool {
+        step(StepKind::QueueLen, self.addr(), Location::caller());
+        self.0.is_empty()
+    }
+}
+
+impl<T> Default for SegQueue<T> {
+    fn default() -> Self {
+        Self::new()
+    }
+}
+
+impl<T> fmt::Debug for SegQueue<T> {
+    fn fmt(&self, f: &mut fmt::Formatter<'_>) -> fmt::Result {
+        fmt::Debug::fmt(&self.0, f)
+    }
+}
+
+impl<T> Deref for SegQueue<T> {
+    type Target = crossbeam::queue::SegQueue<T>;
+    fn deref(&self) -> &Self::Target {
+        &self.0
+    }
+}
